@@ -447,7 +447,12 @@ def run_roundtrip(case):
     for d in decimals_list:
         cases.append((("rt", repr(tree), d), True))
         repro = fill_template(ROUNDTRIP_REPRO, tree=tree, decimals=d, normal=parser_normal(tree))
-        text = c.serialize(d)
+        try:
+            text = c.serialize(d)
+        except Exception as ex:  # noqa  - a circuit that can be built must be printable
+            fails.append((f"{keybase}:serialize-raises-{type(ex).__name__}" if not family.startswith("label:") else keybase, "Element.to_string",
+                          f"[{family}, decimals={d}] serialize() raises {type(ex).__name__}: {str(ex)[:120]}", repro))
+            continue
 
         def fail(symptom, what, fn="parse_cdc"):
             fails.append((f"{keybase}:{symptom}" if not family.startswith("label:") else keybase, fn, f"[{family}, decimals={d}] {text!r}: {what}", repro))
@@ -483,7 +488,11 @@ def run_roundtrip(case):
         a, b = impedance_outcome(c2), impedance_outcome(Circuit(T.build(T.rounded(tree, d))))
         if type(a) is not type(b) or (a != b if isinstance(a, str) else not np.allclose(a, b, rtol=1e-12, atol=0)):
             fail("impedance-differs", f"impedance of the parsed circuit {a} differs from {b}", "parse_cdc")
-    return cases, fails, {"family": family, "text": c.serialize(6)[:160]}
+    try:
+        shown = c.serialize(6)[:160]
+    except Exception:  # noqa
+        shown = repr(tree)[:160]
+    return cases, fails, {"family": family, "text": shown}
 
 
 def run_chunk(chunk):
